@@ -44,7 +44,7 @@ import re
 from psyclone.errors import InternalError
 
 
-def find_break_point(line, max_index, key_list):
+def find_break_point(line, max_index, key_list, continuation=False):
     ''' Finds the most appropriate line break point for the Fortran code in
     line.
 
@@ -57,6 +57,10 @@ def find_break_point(line, max_index, key_list):
                      elements, any possible position of the first element will
                      be found before trying any other element of the list.
     :type key_list: List[str]
+    :param bool continuation: whether line is the remainder of a line that
+                     has already been broken (in which case any white space
+                     at its start is part of the text being wrapped, not
+                     indentation, and it is fine to break within it).
 
     :returns: index to break the line into multiple lines.
     :rtype: int
@@ -65,7 +69,10 @@ def find_break_point(line, max_index, key_list):
     '''
     # We should never break the line before the first element on the
     # line.
-    first_non_whitespace = len(line) - len(line.lstrip())
+    if continuation:
+        first_non_whitespace = 0
+    else:
+        first_non_whitespace = len(line) - len(line.lstrip())
     for key in key_list:
         idx = line.rfind(key, first_non_whitespace+1, max_index)
         if idx > 0:
@@ -195,7 +202,7 @@ class FortLineLength():
                 while len(line) + len(c_start) > self._line_length:
                     break_point = find_break_point(
                         line, self._line_length-len(c_end)-len(c_start),
-                        key_list)
+                        key_list, continuation=True)
                     fortran_out += c_start + line[:break_point] + c_end + "\n"
                     line = line[break_point:]
                 if line:
